@@ -11,7 +11,8 @@
    (=> handle_system_error + shutdown of the whole runtime) is the output OCrash. *)
 From Coq Require Import List Arith Bool.
 Import ListNotations.
-From BQ Require Import rt.ServerM rt.ServerThm rt.ServerCur rt.ServerSend.
+From BQ Require Import rt.ServerM rt.ServerThm rt.ServerCur rt.ServerSend rt.ErrTree rt.ErrTreeThm.
+From Coq Require Import Permutation.
 
 (* ------------------------------------------------------------ tables invariant *)
 (* For every well-formed event list (any number of clients; requests naming ANY id; RESULT /
@@ -230,3 +231,135 @@ Example C13_silence_nonvacuous : forall dc,
   /\ snd (run (Fix dc) (fst (run (Fix dc) init ([Connect 0; Submit 0 0; Request 0 0; Error 0 2] ++ [Disconnect 0])))
                [Result 0 1; Error 0 3]) = [[]; []].
 Proof. intros []; vm_compute; tauto. Qed.
+
+(* --------------------------------------- errors at depth: the way up through managers *)
+(* rt/ErrTree.v: workers anywhere in a tree of Managers of any shape and depth send ERROR / LOG
+   (comp_task_id, text); every Manager forwards them unchanged to its boss; the server handles them
+   with the handlers above; client requests and RESULTs are interleaved arbitrarily (NSrv), links are
+   FIFO, any interleaving between links.  All theorems: every event list, any number of clients. *)
+
+(* nothing is lost, duplicated, altered or invented on the way up *)
+Theorem C13_tree_conservation : forall v es,
+  Permutation (raised es) (map snd (chan (fst (nrun v net0 es))) ++ below (fst (nrun v net0 es))).
+Proof. exact conservation. Qed.
+
+(* the server inside the net is the server model run on the events it was handed *)
+Theorem C13_tree_server_is_run : forall v es,
+  srv (fst (nrun v net0 es)) = fst (run v init (hist (fst (nrun v net0 es))))
+  /\ concat (snd (nrun v net0 es)) = concat (snd (run v init (hist (fst (nrun v net0 es))))).
+Proof. exact net_server_is_run. Qed.
+
+(* never a hang on the way up: every read moves a message one hop closer to the server, and from
+   every reachable state `weight` reads (no further worker activity) empty all links *)
+Theorem C13_tree_deliver_decreases : forall v n p u ch', links_ok (chan n) -> take_first p (chan n) = Some (u, ch') ->
+  S (weight (chan (fst (nstep v n (NDeliver p))))) = weight (chan n).
+Proof. exact deliver_decreases. Qed.
+
+Theorem C13_tree_drain : forall v es,
+  exists ds, Forall is_deliver ds /\ length ds = weight (chan (fst (nrun v net0 es)))
+             /\ chan (fst (nrun v net0 (es ++ ds))) = [] /\ raised (es ++ ds) = raised es.
+Proof. exact drain_reachable. Qed.
+
+(* an exception caught by a worker anywhere in the tree, for a compilation with id mb: once the links
+   are drained the server has handled ERROR (mb, m) with exactly that text; handling it changed no
+   table and its only output was ERROR m to the connection that submitted that compilation (still
+   connected) - or nothing when the compilation is no longer known (client gone / cancelled) *)
+Theorem C13_tree_error_reaches_owner : forall dc es,
+  wf_run dc spec0 (hist (fst (nrun (Fix dc) net0 es))) = true ->
+  forall mb m, In (KErr, mb, m) (raised es) -> chan (fst (nrun (Fix dc) net0 es)) = [] ->
+  exists h1 h2, hist (fst (nrun (Fix dc) net0 es)) = h1 ++ Error mb m :: h2
+    /\ wf_run dc spec0 h1 = true
+    /\ step (Fix dc) (fst (run (Fix dc) init h1)) (Error mb m) =
+         (fst (run (Fix dc) init h1),
+          match tom (fst (srun dc spec0 h1)) mb with
+          | Some t => [OError (owner (fst (srun dc spec0 h1)) t) m]
+          | None => [] end)
+    /\ (forall t, tom (fst (srun dc spec0 h1)) mb = Some t ->
+          cst (fst (srun dc spec0 h1)) (owner (fst (srun dc spec0 h1)) t) = CConnected).
+Proof. exact error_reaches_owner. Qed.
+
+(* never to another client: every ERROR output of the whole run is the forwarding of an ERROR event
+   (mb, m) handled by the server, text unchanged, addressed to the owner of mb's compilation *)
+Theorem C13_tree_error_only_to_owner : forall dc es,
+  wf_run dc spec0 (hist (fst (nrun (Fix dc) net0 es))) = true ->
+  forall c m, In (OError c m) (concat (snd (nrun (Fix dc) net0 es))) ->
+  exists h1 h2 mb t, hist (fst (nrun (Fix dc) net0 es)) = h1 ++ Error mb m :: h2
+    /\ tom (fst (srun dc spec0 h1)) mb = Some t /\ owner (fst (srun dc spec0 h1)) t = c.
+Proof. exact error_only_to_owner. Qed.
+
+(* ... and the server stays able to serve *)
+Theorem C13_tree_server_stays_up : forall dc es,
+  wf_run dc spec0 (hist (fst (nrun (Fix dc) net0 es))) = true ->
+  up (srv (fst (nrun (Fix dc) net0 es))) = true /\ ~ In OCrash (concat (snd (nrun (Fix dc) net0 es))).
+Proof. exact net_server_stays_up. Qed.
+
+(* two clients, a depth-3 tree: client 1's task raises on worker [2;0;1] (below manager [0;1] below
+   manager [1]) while client 0's LOG travels on another branch; only client 1 gets ERROR 9 *)
+Definition ex_net : list nev :=
+  [NSrv (Connect 0); NSrv (Connect 1); NSrv (Submit 0 0); NSrv (Submit 1 1);
+   NRaise [2; 0; 1] KErr 1 9; NRaise [0; 0] KLog 0 4; NDeliver [2; 0; 1]; NDeliver [0; 0]; NDeliver [0; 1];
+   NSrv (Request 0 0); NDeliver [0]; NDeliver [1]; NSrv (Result 0 5)].
+Example C13_tree_nonvacuous : forall dc,
+  wf_run dc spec0 (hist (fst (nrun (Fix dc) net0 ex_net))) = true
+  /\ chan (fst (nrun (Fix dc) net0 ex_net)) = []
+  /\ In (KErr, 1, 9) (raised ex_net)
+  /\ map answers (snd (nrun (Fix dc) net0 ex_net)) =
+     [[]; []; []; []; []; []; []; []; []; []; [OLog 0 4]; [OError 1 9]; [OResult 0 5]].
+Proof. intros []; vm_compute; repeat split; auto. Qed.
+
+(* ------------------------------------------------------------------ the client side *)
+(* rt/ClientM.v: Compiler._send_recv / _recv_log_error_until_empty / _recv_handle_log_error and the
+   type checks of status / result / cancel (bqskit/compiler/compiler.py).  `fixed = false` is the code
+   as it is (finding C13-LOGDRAIN), `fixed = true` the code with fixes/C13-LOGDRAIN.patch; k1 / k2 =
+   how many messages have already arrived when the two `while conn.poll()` loops look. *)
+From BQ Require rt.ClientM rt.ClientThm.
+
+(* result() returns the RESULT that answers its own request (round trip: the first non-LOG message
+   after the send), whatever LOGs surround it; the connection stays open *)
+Theorem C13_client_result_returns_own_result : forall fixed k1 k2 l0 l1 v rest,
+  (fixed = false -> k1 = 0 \/ l0 = []) ->
+  forallb ClientM.is_log (firstn k2 rest) = true ->
+  ClientM.call fixed ClientM.CResult k1 k2 (true, map ClientM.MLog l0) [] (map ClientM.MLog l1 ++ ClientM.MResult v :: rest)
+  = (ClientM.Ret (ClientM.VResult v), l0 ++ l1 ++ ClientM.logs_of (firstn k2 rest), (true, skipn k2 rest)).
+Proof. exact ClientThm.result_returns_own_result. Qed.
+
+Theorem C13_client_call_returns_own_answer : forall fixed kd k1 k2 l0 l1 a rest,
+  kd <> ClientM.CSubmit -> (fixed = false -> k1 = 0 \/ l0 = []) -> ClientM.is_ans a = true ->
+  forallb ClientM.is_log (firstn k2 rest) = true ->
+  ClientM.call fixed kd k1 k2 (true, map ClientM.MLog l0) [] (map ClientM.MLog l1 ++ a :: rest)
+  = (ClientM.answer kd a, l0 ++ l1 ++ ClientM.logs_of (firstn k2 rest), (true, skipn k2 rest)).
+Proof. exact ClientThm.call_returns_own_answer. Qed.
+
+(* a forwarded ERROR that is the first non-LOG message in the pipe makes the call raise with that
+   message - never a value - and drops the connection; every later call raises `no connection` *)
+Theorem C13_client_error_raises : forall kd k1 k2 q pre post l m rest,
+  kd <> ClientM.CSubmit -> (q ++ pre) ++ post = map ClientM.MLog l ++ ClientM.MErr m :: rest ->
+  exists lg q', ClientM.call true kd k1 k2 (true, q) pre post = (ClientM.RaiseErr m, lg, (false, q')).
+Proof. exact ClientThm.error_raises. Qed.
+
+Theorem C13_client_closed_stays_closed : forall fixed q cs,
+  fst (ClientM.run fixed (false, q) cs) = map (fun _ => (ClientM.RaiseNoConn, [])) cs.
+Proof. exact ClientThm.run_after_close. Qed.
+
+(* repaired drain: LOG messages anywhere in the pipe change only the emitted log list *)
+Theorem C13_client_log_transparent : forall kd k1 k2 op q pre post o lg op' q',
+  ClientM.call true kd k1 k2 (op, q) pre post = (o, lg, (op', q')) ->
+  exists k1' k2', ClientM.call true kd k1' k2' (op, ClientM.strip q) (ClientM.strip pre) (ClientM.strip post)
+                  = (o, [], (op', ClientM.strip q')).
+Proof. exact ClientThm.log_transparent. Qed.
+
+(* the code as it is: one LOG that has arrived before the next call kills the connection although the
+   correct RESULT follows (finding C13-LOGDRAIN) *)
+Theorem C13_client_pending_log_refuted :
+  exists l v,
+    ClientM.call false ClientM.CResult 1 0 (true, []) [ClientM.MLog l] [ClientM.MResult v]
+      = (ClientM.RaiseClosed ClientM.CAttr, [], (false, []))
+    /\ ClientM.call true ClientM.CResult 1 0 (true, []) [ClientM.MLog l] [ClientM.MResult v]
+      = (ClientM.Ret (ClientM.VResult v), [l], (true, [])).
+Proof. exact ClientThm.pending_log_refuted. Qed.
+
+Example C13_client_nonvacuous :
+  ClientM.call true ClientM.CResult 1 2 (true, [ClientM.MLog 1; ClientM.MLog 2]) []
+    [ClientM.MLog 3; ClientM.MResult 7; ClientM.MLog 4; ClientM.MLog 5; ClientM.MStatus 1]
+  = (ClientM.Ret (ClientM.VResult 7), [1; 2; 3; 4; 5], (true, [ClientM.MStatus 1])).
+Proof. exact ClientThm.ex_own_answer. Qed.
